@@ -216,6 +216,79 @@ def env(cwd: str | None = None, environ: dict[str, str | None] | None = None, um
             time.tzset()
 
 
+class _Scan:
+    """stand-in for the iterator/context manager os.scandir returns"""
+
+    def __init__(self, entries: list[Any]) -> None:
+        self._it = iter(entries)
+
+    def __iter__(self) -> "_Scan":
+        return self
+
+    def __next__(self) -> Any:
+        return next(self._it)
+
+    def __enter__(self) -> "_Scan":
+        return self
+
+    def __exit__(self, *a: Any) -> None:
+        return None
+
+    def close(self) -> None:
+        return None
+
+
+@contextlib.contextmanager
+def listing_order(inside: str | os.PathLike[str], mode: str, seed: int = 0) -> Iterator[dict[str, int]]:
+    """Permute what the file system reports as directory listing order, in this process, for directories under
+    `inside` only (lark, importlib, tempfile … see their own directories unchanged).  os.scandir and os.listdir are
+    wrapped: os.walk, Path.iterdir, Path.glob/rglob and shutil are built on them.  mode: "sorted" | "reversed" |
+    "shuffled" (seeded per directory).  Yields a counter of permuted listings."""
+    import random as _random
+    root = os.path.realpath(os.fspath(inside))
+    o_scandir, o_listdir = os.scandir, os.listdir
+    stats = {"listings": 0}
+
+    def _in(path: Any) -> bool:
+        try:
+            if isinstance(path, int):
+                return False
+            ap = os.path.realpath(os.fspath(path) if path is not None else ".")
+            if isinstance(ap, bytes):
+                ap = os.fsdecode(ap)
+        except (TypeError, OSError, ValueError):
+            return False
+        return ap == root or ap.startswith(root + os.sep)
+
+    def _perm(items: list[Any], key: Any, path: Any) -> list[Any]:
+        items = sorted(items, key=key)
+        if mode == "reversed":
+            items.reverse()
+        elif mode == "shuffled":
+            _random.Random(f"{seed}|{os.fspath(path) if path is not None else '.'}").shuffle(items)
+        stats["listings"] += 1
+        return items
+
+    def scandir(path: Any = ".") -> Any:
+        if not _in(path):
+            return o_scandir(path)
+        with o_scandir(path) as it:
+            entries = list(it)
+        return _Scan(_perm(entries, lambda e: os.fsdecode(e.name), path))
+
+    def listdir(path: Any = ".") -> Any:
+        res = o_listdir(path)
+        if not _in(path):
+            return res
+        return _perm(list(res), os.fsdecode, path)
+
+    os.scandir, os.listdir = scandir, listdir  # type: ignore[assignment]
+    try:
+        yield stats
+    finally:
+        os.scandir, os.listdir = o_scandir, o_listdir  # type: ignore[assignment]
+
+
 def _quiet() -> None:
     logging.getLogger("poetry.core").setLevel(logging.CRITICAL)
 
